@@ -1390,4 +1390,34 @@ theorem strncatTail_spec (c : List Byte) (n : Nat) (m : Mem) (s1 s2 : Nat) (c0 :
     · simp [strncatTail_succ, catStep, hs.1, wr_upd hd.1, hx, e]
     · simpa using holds_cons_of_upd ho hh
 
+/-! ### round 3: strtok histories -/
+
+/-- `takeWhile` / `dropWhile` split a list; the first part satisfies `p`, the head of the second does not -/
+theorem span_spec (p : Byte → Bool) : ∀ l : List Byte,
+    l = l.takeWhile p ++ l.dropWhile p ∧ (∀ y ∈ l.takeWhile p, p y = true) ∧
+    (∀ x r', l.dropWhile p = x :: r' → p x = false)
+  | [] => by simp
+  | a :: l => by
+    have ih := span_spec p l
+    by_cases h : p a = true
+    · simp only [List.takeWhile_cons, List.dropWhile_cons, h, if_true]
+      refine ⟨by simpa using ih.1, ?_, ih.2.2⟩
+      intro y hy
+      simp only [List.mem_cons] at hy
+      rcases hy with rfl | hy
+      · exact h
+      · exact ih.2.1 y hy
+    · have h' : p a = false := by simpa using h
+      simp only [List.takeWhile_cons, List.dropWhile_cons, h']
+      simp
+      exact h'
+
+theorem DelimsOk.transport {m m' : Mem} {fuel lo hi x : Nat} (ho : SameOutside m m' x 1) (hx : lo ≤ x ∧ x < hi) :
+    ∀ {ds : List Nat} {Ds : List (List Byte)}, DelimsOk m fuel lo hi ds Ds → DelimsOk m' fuel lo hi ds Ds
+  | [], [], _ => trivial
+  | _ :: _, _ :: _, h => ⟨⟨cstr_of_sameOutside h.1.1 ho (by have := h.1.2.2; omega), h.1.2.1, h.1.2.2⟩, DelimsOk.transport ho hx h.2⟩
+  | [], _ :: _, h => h.elim
+  | _ :: _, [], h => h.elim
+
+
 end Igris.C08
